@@ -30,8 +30,7 @@ pub fn matches_spec(act: &Act, spec: &ActionSpec) -> bool {
     }
 }
 
-/// seed value that marks a case whose history is also run through the C API
-pub const CAPI_MARK: u64 = 0xC04C_A910_0000_0001;
+use crate::props::CAPI_MARK;
 
 impl Prop for C04 {
     type Case = FwCase;
@@ -132,25 +131,7 @@ impl Prop for C04 {
 
     fn check(case: &FwCase, obs: &mut Obs) -> Result<(), Failure> {
         if case.seed == CAPI_MARK {
-            // the C API face: output buffer between canaries, count pre-set to garbage, every call
-            // (also the empty ones) compared with the Rust framework, which the code below holds to
-            // the contract on the same history
-            let run = crate::props::c20::Case::Run {
-                machines: case.machines.clone(),
-                padding_frac: case.max_padding_frac,
-                batches: case.calls.iter().map(|c| c.events.clone()).collect(),
-                trailing_newline: false,
-            };
-            let mut o2 = Obs::default();
-            <crate::props::c20::C20 as Prop>::check(&run, &mut o2)
-                .map_err(|f| Failure { signature: format!("c-api: {}", f.signature), detail: f.detail })?;
-            obs.hit("c_api_history");
-            if case.calls.iter().any(|c| c.events.is_empty()) {
-                obs.hit("c_api_empty_batch");
-            }
-            if o2.nontrivial {
-                obs.nontrivial();
-            }
+            crate::props::capi_pass(case, obs)?;
         }
         let machines = build_machines(&case.machines)
             .unwrap_or_else(|e| panic!("generator produced a machine that Machine::new rejects: {e}"));
